@@ -49,6 +49,8 @@ JSON_KINDS = [("null", None), ("true", True), ("zero", 0), ("one", 1), ("minus1"
               ("dict_hexchars", dict.fromkeys("0123456789abcdef")), ("list2_hexchars", ["0", "4"])]
 PY_KINDS = [("bytes", b"ab" * 32), ("bytearray", bytearray(b"ab")), ("tuple", ("x",)), ("set", {"x"}), ("frozenset", frozenset({"x"})),
             ("complex", 1j), ("decimal", decimal.Decimal("1")), ("fraction", fractions.Fraction(1, 1)), ("object", object()),
+            ("decimal_nan", decimal.Decimal("NaN")), ("decimal_inf", decimal.Decimal("Infinity")),      # (a SIGNALLING NaN, whose every comparison raises by design, counts as a hostile object: out of scope)
+            ("decimal_1e30", decimal.Decimal("1E+30")), ("decimal_frac", decimal.Decimal("1.5")), ("fraction_half", fractions.Fraction(3, 2)),
             ("strsub", StrSub("ab" * 32)), ("intsub", IntSub(1)), ("dictsub", DictSub()), ("timedelta", datetime.timedelta(1))]
 
 
